@@ -18,7 +18,7 @@ import (
 func init() {
 	Register("C20", &Info{
 		Run:   runC20,
-		Quick: 8000, Thor: 300000,
+		Quick: 8000, Thor: 1200000,
 		Rule: "a world = a seed connection that obtains a genuine TLS 1.2 or TLS 1.3 session from the repository server (captured through a recording ClientSessionCache), then a second UConn (parrots with and without session_ticket / pre_shared_key extensions) on which a sequence of 0-5 session-API calls drawn from {SetClientRandom and SetSNI (documented edits of a built hello), SetSessionCache, BuildHandshakeStateWithoutSession, SetSessionTicketExtension (session of the seed connection, or in a quarter of the worlds the documented sessionless 'fake ticket'), SetSessionState (the seed's, one forged with MakeClientSessionState, or nil), the UConn's cache empty or already holding the seed session, SetPskExtension (extension initialised by the harness from the seed's resumption state with an independently derived early secret and binder key), BuildHandshakeState} is applied in order, followed by Handshake; all sequences of length <= 3 over the eight operations are enumerated by run index (585 of every 800 runs), longer ones are drawn; a small reference model of the documented protocol classifies each sequence as allowed / forbidden / unspecified; oracle: allowed => no panic, Handshake completes, the injected ticket / PSK identity appears on the wire byte for byte and the server resumes; forbidden (setter without a cache, setter after BuildHandshakeState, setter for an extension the spec lacks) => an error or a panic carrying a message, never a runtime error; unspecified => only 'no runtime-error panic'; non-trivial = the sequence contains a setter; distinct = (parrot, version, sequence)",
 		Assumptions: []string{"the reference model is my reading of the doc comments on UConn.BuildHandshakeState, BuildHandshakeStateWithoutSession, SetSessionTicketExtension, SetPskExtension, SetSessionState and Config.PreferSkipResumptionOnNilExtension; it is deliberately narrow about what it calls 'allowed': cache set first, at most one setter, setter before any BuildHandshakeState (BuildHandshakeStateWithoutSession may precede it)",
 			"TLS 1.3 early secret and binder key for the injected PSK are derived by the harness (RFC 8446 section 7.1) from ClientSessionState.MasterSecret()"},
